@@ -122,6 +122,13 @@ def render_forwarding(o, i, fl, placement):
         L += ['def inner(%s):' % absig.render_params(i), '    return locals()',
               'class K(object):', '    def w0(%s):' % absig.render_params(hp + list(o)), '        return ' + call_text('h', o, fl),
               'w = functools.partial(K().w0, inner)', '']
+    elif placement == 'auto_relay':
+        # through an intermediate forwarder that takes its callee as first argument: the VALUES of the written arguments matter to discovery
+        ct = call_text('relay', o, fl)
+        ct = ct.replace('relay(', 'relay(inner, ', 1) if not fl.get('partial') else ct.replace('functools.partial(relay', 'functools.partial(relay, inner', 1)
+        L += ['def inner(%s):' % absig.render_params(i), '    return locals()',
+              'def relay(fn, /, *a, **k):', '    return fn(*a, **k)',
+              'def w(%s):' % absig.render_params(o), '    return ' + ct.replace(', )', ')'), '']
     elif placement == 'auto_class_call':
         # the subject is a CLASS whose instances forward when called: calling the class runs the constructor (which takes nothing here),
         # whatever __call__ would accept
